@@ -76,13 +76,22 @@ func runC01(p *engine.Prog, r *engine.Report) {
 		perFn[fn]++
 		ck := fmt.Sprintf("delete#%d in %s", perFn[fn], engine.FuncName(fn))
 		r.Add("R1.1-who-may-remove", ck, "delete at "+c.at(del), "enumerated", "", engine.Discharged).Trivial = true
+		for k := 1; k < len(c.decisionSites(del)); k++ {
+			// a delete reached from several decision points stands for as many removals
+			r.Add("R1.1-who-may-remove", fmt.Sprintf("%s decision#%d", ck, k+1), "delete at "+c.at(del), "enumerated", "", engine.Discharged).Trivial = true
+			r.Add("R1.2-removal-justified", fmt.Sprintf("%s decision#%d", ck, k+1), "removal decided elsewhere than at "+c.at(del), "justified together with the delete it leads to", "see "+ck, engine.Discharged).Trivial = true
+		}
 		s, _ := loadOfField(del.Call.Args[0], c.fScraping)
 		k := del.Call.Args[1]
 		st, kt := fi.T(s).S, fi.T(k).S
-		// J1: absent from a discovered map
+		// the decision may be taken at another place than the delete (a flag set in a search loop and tested after it)
 		var just []string
-		found := false
 		var tried []string
+		allFound := true
+		sites := c.decisionSites(del)
+		for _, site := range sites {
+		found := false
+		// J1: absent from a discovered map
 		for _, b := range fn.Blocks {
 			for _, in := range b.Instrs {
 				lk, ok := in.(*ssa.Lookup)
@@ -99,7 +108,7 @@ func runC01(p *engine.Prog, r *engine.Report) {
 					}
 					j1 = engine.Or(j1, engine.Not(engine.A("has("+ownBase(fi, lk)+")")), engine.EqAtom(ownBase(fi, lk), "nil"))
 					_ = own
-					if ok, _ := fi.Implies(del.Block(), j1); ok {
+					if ok, _ := site.implies(fi, j1); ok {
 						found = true
 						just = append(just, "J1: key absent from the discovered map "+fi.T(lk.X).S)
 					}
@@ -130,8 +139,8 @@ func runC01(p *engine.Prog, r *engine.Report) {
 						return engine.LtAtom(engine.Sym(fi.FieldPath(ot, lk, c.fRuntime, f)), engine.Sym(fi.FieldPath(st, lk, c.fRuntime, f)))
 					}
 					j2b := engine.And(distinct, nonnil, engine.EqAtom(sState, oState), engine.Or(lt(c.fHead), lt(c.fProc)))
-					okA, _ := fi.Implies(del.Block(), j2a)
-					okB, _ := fi.Implies(del.Block(), j2b)
+					okA, _ := site.implies(fi, j2a)
+					okB, _ := site.implies(fi, j2b)
 					if !okA && !okB {
 						tried = append(tried, "holder "+ot+": neither J2a nor J2b is implied")
 						continue
@@ -149,9 +158,14 @@ func runC01(p *engine.Prog, r *engine.Report) {
 				}
 			}
 		}
+		if !found {
+			allFound = false
+		}
+		}
+		found := allFound
 		have := strings.Join(just, "; ")
 		if !found {
-			have = "path condition: " + strings.Join(fi.Guards(del.Block()), " ∧ ")
+			have = "path condition: " + strings.Join(fi.Guards(sites[len(sites)-1].blk), " ∧ ")
 			if len(tried) > 0 {
 				have = strings.Join(tried, "; ") + "; " + have
 			}
